@@ -1,12 +1,110 @@
-"""C12 (ILP part) — deadline enforcement of the ILP planner in task-by-task mode."""
+"""C12 (ILP part) — deadline enforcement of the ILP planner in task-by-task mode; the batching mode is NOT modelled: an
+implementation-side monitor judges the returned Placements of batching worlds."""
 from props import c10_ilp as common
+from props.c10_ilp import g_instance, g_plan, HEADER
+import core
 
-TRUSTED = common.TRUSTED
+TRUSTED = common.TRUSTED + [
+    "batching mode (--scheduler_enable_batching: BatchTask, _create_batch_task_variables) is NOT modelled and no theorem covers "
+    "it; only a Python monitor on the Placements returned for generated batching worlds (every placed member meets its own "
+    "deadline, one decision per member, no start before now)",
+]
+
+
+def gen_batch_world(rng):
+    """A batch of 2-3 SCHEDULED members (one shared WorkProfile, one BatchStrategy) with DIFFERENT deadlines, planned for the
+    near future on a contended worker, and a tight new task arriving just before the batch starts: re-planning the batch is
+    only legal while every member still meets its own deadline."""
+    now = rng.choice([5, 8])
+    rt = rng.choice([5, 6])
+    start = now + 1
+    n = rng.choice([2, 3, 3])
+    tight = start + rt + rng.choice([0, 0, 1])
+    members = [{"id": i, "deadline": tight if i == 0 else tight + rng.choice([10, 18, 30])} for i in range(n)]
+    rng.shuffle(members)
+    for i, m in enumerate(members):
+        m["id"] = i
+    rt_new = rng.choice([2, 3])
+    new = [{"id": n, "rt": rt_new, "demand": 1, "deadline": now + 1 + rt_new + rng.choice([0, 1]), "release": now}]
+    return {"kind": "batch", "seed": rng.randrange(10 ** 6), "now": now, "cap": 1, "demand": 1, "rt": rt, "start": start,
+            "members": members, "new": new}
+
+
+def batch_ok(w, r):
+    """every task gets exactly one decision; a placed task starts at or after now and meets ITS OWN deadline"""
+    if "plan" not in r:
+        return "error" not in r and False
+    ids = [m["id"] for m in w["members"]] + [n["id"] for n in w["new"]]
+    got = [p[0] for p in r["plan"]]
+    if sorted(got) != sorted(ids):
+        return False
+    dl = dict((m["id"], m["deadline"]) for m in w["members"] + w["new"])
+    for tid, placed, t, rt in r["plan"]:
+        if placed and (t < w["now"] or t + rt > dl[tid]):
+            return False
+    return True
+
+
+def batch_monitor(ctx):
+    n = 16 if ctx.tier == "quick" else 160
+    worlds = [gen_batch_world(ctx.rng) for _ in range(n)]
+    results = common.run_worlds(worlds, probe=False)
+    bad = 0
+    moved = 0
+    for w, r in zip(worlds, results):
+        if "error" in r or "adapter_error" in r:
+            ctx.violation("batchraise%d" % worlds.index(w), {"stream": "M-batch", "world": w, "what": "schedule() (batching) raised: "
+                                                               + str(r.get("error", r.get("adapter_error"))), "traceback": r.get("traceback")})
+            bad += 1
+        elif not batch_ok(w, r):
+            if bad < 3:
+                ctx.violation("batch%d" % worlds.index(w), {"stream": "M-batch", "world": w, "returned_placements": r["plan"],
+                                                            "what": "batching mode: a member of a re-planned batch is placed so that it ends after ITS OWN "
+                                                                    "deadline (or a decision is missing / duplicated / before now) although deadlines are enforced (C12)"})
+            bad += 1
+        moved += any(p[1] and p[0] < len(w["members"]) and p[2] != w["start"] for p in r.get("plan", []))
+    st = ctx.cov["streams"].setdefault("M-batch:monitor", {"cases": 0, "failing": 0})
+    st["cases"] += len(worlds)
+    st["failing"] += bad
+    ctx.cov["input_distribution"]["batch_worlds"] = len(worlds)
+    ctx.cov["input_distribution"]["batch_worlds_where_the_batch_was_moved"] = moved
+    ctx.rules.append("M-batch (implementation side only, batching is not modelled): a SCHEDULED batch of 2-3 members with different "
+                     "deadlines (tightest = planned end + 0..1) on a 1-slot worker and a tight new task released one step before the batch "
+                     "starts, ILPScheduler(batching=True, enforce_deadlines=True); the returned Placements must give every task one decision "
+                     "and every placed member its own deadline")
+
+
+def returned_monitor(ctx, worlds, results):
+    """c12_check on the RETURNED placements (not only on the solver's values)"""
+    cases, where = [], []
+    for i, (w, r) in enumerate(zip(worlds, results)):
+        if "plan" in r and r.get("order"):
+            pl = [[t, d] for t, d in r["plan"]]
+            cases.append("(%s, %s)" % (g_instance(w, r), g_plan(pl)))
+            where.append(i)
+    try:
+        bad = ctx.monitor_stream("M-c12r", HEADER, "instance * plan", "(fun p => andb (c12_check (fst p) (snd p)) (c12_hopeless_check (fst p) (snd p)))",
+                                 cases, shard=100)
+    except core.ModelEvalError as e:
+        ctx.broken.append({"kind": "monitor", "name": "M-c12r", "detail": str(e)[-800:]})
+        bad = []
+        for j, i in enumerate(where):
+            w, r = worlds[i], results[i]
+            tds = {t["id"]: t for t in w["tasks"]}
+            if w["cfg"]["enforce"] and not w["cfg"]["release_tg"]:
+                if any(d and d[0] + tds[t]["strats"][d[2]][0] > r["state"][str(t)]["deadline"] for t, d in r["plan"]):
+                    bad.append(j)
+    for b in bad[:3]:
+        i = where[b]
+        ctx.violation("c12r%d" % i, {"stream": "M-c12r", "world": worlds[i], "returned_placements": results[i]["plan"],
+                                     "what": "a RETURNED placement ends after the task's deadline, or a hopeless task is placed (C12)"})
 
 
 def run(ctx):
     # half of the worlds in the property's own mode (task-by-task, deadlines enforced), half mixed
     built, worlds, results = common.common_prelude(ctx, ctx.pid.split("_")[0] + "_ilp", 80, 1200, profile="taskwise")
+    returned_monitor(ctx, worlds, results)
+    batch_monitor(ctx)
     common.stream_csys(ctx, worlds, results)
     common.stream_plan(ctx, worlds, results)
     common.run_sat_monitor(ctx, worlds, results)
